@@ -99,7 +99,7 @@ func (s *State) clone() *State {
 
 func valName(v ssa.Value) string {
 	if p := v.Parent(); p != nil {
-		return FuncName(p) + "·" + v.Name()
+		return uniqFuncName(p) + "·" + v.Name()
 	}
 	return v.Name()
 }
@@ -308,7 +308,7 @@ func (s *State) dropFrameFacts(fn *ssa.Function) {
 		}
 	}
 	if len(s.sg) > 0 {
-		prefix := FuncName(fn) + "·"
+		prefix := uniqFuncName(fn) + "·"
 		for k := range s.sg {
 			if strings.HasPrefix(k, prefix) {
 				delete(s.sg, k)
